@@ -5,7 +5,7 @@
      pass the coalescer's gates.
    The unrestricted statement is refuted (Examples.gro_lossless_refuted: a zero-length datagram
    is overtaken by a later datagram of its flow). *)
-From WG Require Import Base.Prelude Gen.Constants Gro.Bytes Gro.Model Gro.KernelSpec Gro.Spec Gro.Proofs Gro.Csum Gro.Headers Gro.HeadersTcp Gro.Lossless Gro.Holds Gro.Order Gro.CsumKept Gro.Examples.
+From WG Require Import Base.Prelude Gen.Constants Gro.Bytes Gro.Model Gro.OldModel Gro.KernelSpec Gro.Spec Gro.Proofs Gro.Csum Gro.Headers Gro.HeadersTcp Gro.Lossless Gro.Holds Gro.Order Gro.CsumKept Gro.Examples.
 From WG Require Gro.Check.
 Local Open Scope N_scope.
 
@@ -93,4 +93,29 @@ Lemma eligible_batches_nonvacuous :
   preb 16 ex_mixed = true /\ bytes_okb ex_mixed = true /\
   forallb (fun b => Check.keep_eligible (b_pkt b)) ex_mixed = true /\
   existsb (fun j => v_gso (dec_vhdr (b_hdr (get_buf (s_bufs (run ex_mixed)) j))) =? GSO_UDP_L4) (s_tw (run ex_mixed)) = true.
+Proof. vm_compute. repeat split; reflexivity. Qed.
+
+(* History of the repaired defect gro-tcp-ns-flag-lost-in-merge: the code before the fix (Old) merges two
+   adjacent segments, the second with TCP byte 12 = 0x51, and both leave the kernel with 0x50: clause 6
+   fails (only through that bit).  Now a segment with a non-zero low nibble is never a candidate: the
+   same batch is passed through and satisfies the whole specification. *)
+Definition ex_ns : list buf :=
+  let q := tcp4 101 16 100 in
+  map (mkb z10 65535) [tcp4 1 16 100; put_be16 (put_byte q 32 81) 36 (be16 q 36 - 256)].
+Lemma old_ns_flag_lost :
+  preb 16 ex_ns = true /\ bytes_okb ex_ns = true /\ forallb (fun b => l4_csum_ok (b_pkt b)) ex_ns = true /\
+  (let s := run_old ex_ns in s_err s = false /\ s_tw s = [0] /\
+     map nsbit (segments (s_tw s) (s_bufs s)) = [0; 0] /\ map (fun b => nsbit (b_pkt b)) ex_ns = [0; 1] /\
+     csum_kept_ok ex_ns (s_tw s) (s_bufs s) = false /\ csum_kept_gen false ex_ns (s_tw s) (s_bufs s) = true /\
+     floweq_ok ex_ns (s_tw s) (s_bufs s) = true /\ holdsb ex_ns (s_tw s) (s_bufs s) = false).
+Proof. vm_compute. repeat split; reflexivity. Qed.
+Theorem old_csum_kept_refuted :
+  ~ (forall canUDP offset bufs, bytes_ok bufs -> let s := Old.handle_gro canUDP offset bufs in
+       s_err s = false -> csum_kept_ok bufs (s_tw s) (s_bufs s) = true).
+Proof.
+  intros H. specialize (H true 16 ex_ns (bytes_okb_ok _ (proj1 (proj2 old_ns_flag_lost)))).
+  destruct old_ns_flag_lost as [_ [_ [_ [He [_ [_ [_ [Hk _]]]]]]]]. unfold run_old in *. rewrite (H He) in Hk. discriminate.
+Qed.
+Print Assumptions old_csum_kept_refuted.
+Lemma ns_scenario_holds : s_tw (run ex_ns) = [0; 1] /\ s_trace (run ex_ns) = [Inserted; Noop] /\ holds ex_ns = true.
 Proof. vm_compute. repeat split; reflexivity. Qed.
